@@ -110,8 +110,15 @@ coap_cache_derive_key_w_ignore(const coap_session_t *session,
   while ((option = coap_option_next(&opt_iter))) {
     if (is_cache_key(opt_iter.number, cache_ignore_count,
                      cache_ignore_options)) {
+      uint32_t opt_length = coap_opt_length(option);
+
       if (!coap_digest_update(dctx, (const uint8_t *)&opt_iter.number,
                               sizeof(opt_iter.number))) {
+        goto update_fail;
+      }
+      /* the length delimits the value: ("a\x0f\0b") and ("a", "b") differ */
+      if (!coap_digest_update(dctx, (const uint8_t *)&opt_length,
+                              sizeof(opt_length))) {
         goto update_fail;
       }
       if (!coap_digest_update(dctx, coap_opt_value(option),
